@@ -103,6 +103,7 @@ theorem verilog_resolved_rel {α : Type u} (hok : VOK cfg tl ports stmts) (lib :
     (hrok : resolveOKB lib (verilogNNet cfg tl ports stmts).keys (verilogNNet cfg tl ports stmts) = true)
     (he : resolveCells lib (verilogNNet cfg tl ports stmts) = some h') (z : α) (neg : α → α) (prim : String → α → α → α → α → α) :
     h'.wf = true ∧ h'.net.io = (verilogNet cfg tl ports stmts).io ∧
+    (verilogNet cfg tl ports stmts).lines.size ≤ h'.net.lines.size ∧
     (∀ d, d < (verilogNet cfg tl ports stmts).nodes.size → (lib.find ((verilogNet cfg tl ports stmts).node d).kind).isSome = false →
       h'.net.node d = (verilogNet cfg tl ports stmts).node d) ∧
     (∀ an' v' : Nat → α, ConsOff h' (fun _ => False) z neg prim an' v' →
@@ -116,8 +117,8 @@ theorem verilog_resolved_rel {α : Type u} (hok : VOK cfg tl ports stmts) (lib :
         (∀ d, d < (verilogNet cfg tl ports stmts).nodes.size → (lib.find ((verilogNet cfg tl ports stmts).node d).kind).isSome = false →
           an' d = a ((verilogNet cfg tl ports stmts).sNodes.idxOf d))) := by
   have hW := WF.of_wf hw
-  obtain ⟨r1, r2, _, _, r5, _, fw, bw⟩ := C10.resolve_sem lib (verilogNNet cfg tl ports stmts) h' hw hrok he z neg prim
-  refine ⟨r1, r2, r5, ?_, ?_⟩
+  obtain ⟨r1, r2, _, r4, r5, _, fw, bw⟩ := C10.resolve_sem lib (verilogNNet cfg tl ports stmts) h' hw hrok he z neg prim
+  refine ⟨r1, r2, r4, r5, ?_, ?_⟩
   · intro an' v' hc
     obtain ⟨g1, g2⟩ := fw an' v' hc
     obtain ⟨σ, hm, hl⟩ := verilog_consOff_model hok lib hcl z neg prim an' v' g1
@@ -201,6 +202,7 @@ theorem verilog_resolved_datasheet (hok : VOK cfg tl ports stmts) (lib : Lib) (h
     (hcert : ∀ c, c < (verilogNNet cfg tl ports stmts).net.nodes.size →
       (lib.find ((verilogNNet cfg tl ports stmts).net.node c).kind).isSome = true → InstCert lib row ord (verilogNNet cfg tl ports stmts) c) :
     h'.wf = true ∧ h'.net.io = (verilogNet cfg tl ports stmts).io ∧
+    (verilogNet cfg tl ports stmts).lines.size ≤ h'.net.lines.size ∧
     (∀ d, d < (verilogNet cfg tl ports stmts).nodes.size → (lib.find ((verilogNet cfg tl ports stmts).node d).kind).isSome = false →
       h'.net.node d = (verilogNet cfg tl ports stmts).node d) ∧
     (∀ an' v' : Nat → Bool, ConsOff h' (fun _ => False) false (!·) prim2 an' v' →
@@ -212,8 +214,8 @@ theorem verilog_resolved_datasheet (hok : VOK cfg tl ports stmts) (lib : Lib) (h
         (∀ d, d < (verilogNet cfg tl ports stmts).nodes.size → (lib.find ((verilogNet cfg tl ports stmts).node d).kind).isSome = false →
           an' d = a ((verilogNet cfg tl ports stmts).sNodes.idxOf d))) := by
   have hW := WF.of_wf hw
-  obtain ⟨r1, r2, r3, fw, bw⟩ := verilog_resolved_rel hok lib hcl h' hw hrok he false (!·) prim2
-  refine ⟨r1, r2, r3, ?_, ?_⟩
+  obtain ⟨r1, r2, r3, r4, fw, bw⟩ := verilog_resolved_rel hok lib hcl h' hw hrok he false (!·) prim2
+  refine ⟨r1, r2, r3, r4, ?_, ?_⟩
   · intro an' v' hc
     obtain ⟨σ, hm, hl, hrel⟩ := fw an' v' hc
     exact ⟨σ, ⟨hm, (libRel_iff_libDS hok lib hW row ord hcert σ).mp hrel⟩, hl⟩
